@@ -46,6 +46,10 @@ type kind struct {
 	// jsonEnc/jsonDec: JSON form, nil when none is defined.
 	jsonEnc func(v any) ([]byte, error)
 	jsonDec func(b []byte) (any, error)
+	// reencRefused recognises an encoding that stands for "the encoder's documented limits refuse this value".
+	reencRefused func(v any, e1 []byte) bool
+	// jsonKey names the finding class of a failing JSON clause for this kind ("" = none recorded).
+	jsonKey string
 	// alt are other production paths decoding the same bytes; all successful ones must agree on ident.
 	alt []altPath
 	// value-level extra laws.
@@ -59,6 +63,8 @@ type kind struct {
 	text       bool   // JSON text family (mutations differ)
 	maxCount   uint64 // cap for injected counts (0 = none); see known hangs in c17.go
 	nodeterm   bool   // encoding order is not deterministic (map iteration): compare dumps only
+	// nodetermFn: the same for particular encodings (LZ4 output depends on a pooled, uncleared hash table).
+	nodetermFn func(e []byte) bool
 	weight     int    // relative frequency in the value / byte checks
 }
 
@@ -399,6 +405,28 @@ func init() {
 		ident: txIdent, jsonEnc: je, jsonDec: jd,
 		size: func(v any) (int, bool) { return v.(*transaction.Transaction).Size(), true },
 	})
+	addKind(&kind{name: "tx-reserved-json", weight: 1, jsonKey: "json/reserved-attribute",
+		build: func(t *tape) any {
+			tx := buildTx(t, txOpts{scriptMax: 100})
+			for len(tx.Attributes)+len(tx.Signers) >= transaction.MaxAttributes {
+				if len(tx.Attributes) > 0 {
+					tx.Attributes = tx.Attributes[:len(tx.Attributes)-1]
+				} else {
+					tx.Signers = tx.Signers[:len(tx.Signers)-1]
+					tx.Scripts = tx.Scripts[:len(tx.Scripts)-1]
+				}
+			}
+			for _, a := range tx.Attributes {
+				if a.Type >= transaction.ReservedLowerBound {
+					return tx
+				}
+			}
+			tx.Attributes = append(tx.Attributes, transaction.Attribute{Type: transaction.ReservedLowerBound, Value: &transaction.Reserved{Value: t.smallBlob(8)}})
+			return tx
+		},
+		enc: serEnc, dec: serDec[transaction.Transaction](nil),
+		ident: txIdent, jsonEnc: je, jsonDec: jd,
+	})
 	addKind(&kind{name: "tx-raw", weight: 8, whole: true,
 		build: func(t *tape) any { return buildTx(t, txOpts{scriptMax: 600}) },
 		enc:   serEnc,
@@ -532,6 +560,7 @@ func init() {
 				return m, len(b) - r.Len(), nil
 			},
 			ident: msgIdent, dump: msgDump,
+			nodetermFn: func(e []byte) bool { return len(e) > 0 && e[0]&byte(network.Compressed) != 0 },
 		})
 	}
 
@@ -730,6 +759,9 @@ func init() {
 		},
 		dump:  func(v any) string { it, _ := v.(stackitem.Item); return dumpItem(it) },
 		extra: itemProtectedExtra,
+		reencRefused: func(v any, e1 []byte) bool {
+			return v != nil && len(e1) == 1 && e1[0] == byte(stackitem.InvalidT)
+		},
 		expect: func(v any) any {
 			// Documented: an item that cannot be serialized (limits) is replaced by Invalid.
 			it, _ := v.(stackitem.Item)
